@@ -10,7 +10,7 @@ ioflo/base/housing.py), on the data they walk — frames and framers are numbers
 
 A Python `while` loop is a function with a step budget (`fuel`); `none` = "budget exhausted".  The theorems
 (Props/C14.lean) say when some budget suffices and when none does.  `…Checked` are the loops repaired
-by fixes/D54-over-loop-check.patch and fixes/D06-under-loop-check.patch (a visited list, `ResolveError` on a
+by fixes/D64-over-loop-check.patch and fixes/D06-under-loop-check.patch (a visited list, `ResolveError` on a
 repeat).  Core Lean only.
 -/
 namespace Ioflo.Worklist
@@ -92,5 +92,33 @@ def traceUndersChecked (under : Nat → Option Nat) (fuel : Nat) : List Nat → 
 def linkOf (links : List (Option Nat)) (k : Nat) : Option Nat := (links[k]?).join
 
 def mootsOf (table : List (List Nat)) (k : Nat) : List Nat := (table[k]?).getD []
+
+/-! ### internal errors known to remain reachable from a script
+
+On the tree with fixes D06, D07, D64 applied.  `(finding, exception class, innermost function)`; `HANG` = the build
+does not return, the function is the resolve loop it was interrupted in.  This table is the region predicate of
+the known findings of C14: a failing input is attributed to a finding only if its (class, function) is listed. -/
+def knownCrashSites : List (String × String × String) := [
+  -- D5: a moot framer that clones itself, directly or through other moots: the clone worklist never empties
+  ("D5", "HANG", "presolvePresolvables"),
+  -- D8: a complex literal where a real number is needed (`max(0.0, 1j)`, `int(1j)`)
+  ("D8", "TypeError", "buildFramer"), ("D8", "TypeError", "buildBid"), ("D8", "TypeError", "buildLogger"),
+  -- D65: `int(float('inf'))` / `int(float('nan'))` in `repeat` and `logger … keep`
+  ("D65", "OverflowError", "buildRepeat"), ("D65", "ValueError", "buildRepeat"),
+  ("D65", "OverflowError", "buildLogger"), ("D65", "ValueError", "buildLogger"),
+  -- D66: `server … for <field> in <share>` with a field the share does not have; `rx`/`tx` with a bad host:port
+  ("D66", "KeyError", "__getitem__"), ("D66", "ValueError", "buildServer"),
+  -- D67: script conflicts that ioflo reports with a bare ValueError instead of ParseError/ResolveError
+  --      (share path that runs through an existing share or names an existing node, unequal field lists, bad ioinit)
+  ("D67", "ValueError", "add"), ("D67", "ValueError", "addNode"), ("D67", "ValueError", "_prepareSrcDstFields"),
+  ("D67", "ValueError", "_prepareDstFields"), ("D67", "ValueError", "_initio"), ("D67", "ValueError", "resolve"),
+  -- D68: `Act.resolvePath` indexes the parts of a relative path (`framer`, `frame`, `actor` alone) without checking
+  ("D68", "IndexError", "resolvePath"),
+  -- D69: a name registered twice (two `house` lines of one name, a clone whose name exists) is reported with
+  --      ParameterError / CloneError, which `Builder.build` neither catches nor documents
+  ("D69", "ParameterError", "__init__"), ("D69", "CloneError", "clone")]
+
+def crashFindings (cls fn : String) : List String :=
+  (knownCrashSites.filter (fun e => e.2.1 == cls && e.2.2 == fn)).map (·.1)
 
 end Ioflo.Worklist
